@@ -112,3 +112,54 @@ def stage(acc, d, texts, rng, n, pid, build_kind, kmax=4, descs=False):
         if judged <= 2:
             acc.sample({"query": q, "items": [list(g) for g in got]}, cap=1)
     return judged
+
+
+def interleave_stage(acc, d, queries, rng, n, pid, build_kind):
+    """Result iterators of two or three queries alive at once on one thread, created one after the other and stepped in turn
+    (op `interleave`): every query must yield what it yields when it is evaluated on its own, from start to end."""
+    queries = [q for q in dict.fromkeys(queries) if q and len(q) < 300]
+    if len(queries) < 2 or n <= 0:
+        return 0
+    try:
+        reps = d.call_many([{"op": "query", "q": q} for q in queries], timeout=300)
+    except (DriverDied, DriverTimeout) as ex:
+        acc.inconc("interleave stage, single queries: %r" % (ex,))
+        d.restart()
+        return 0
+    alone = {}
+    for q, r in zip(queries, reps):
+        items = r.get("items")
+        if "panic" in r or not items or any(norm(it) == ("err", "syntax error") for it in items):
+            continue
+        alone[q] = [norm(it) for it in items]
+    pool = list(alone)
+    multi_res = [q for q in pool if len(alone[q]) > 1]
+    if len(pool) < 2:
+        return 0
+    groups = []
+    for _ in range(n):
+        k = rng.choice([2, 2, 3])
+        g = [rng.choice(multi_res) if multi_res and rng.random() < 0.7 else rng.choice(pool) for _ in range(k)]
+        groups.append(g)
+    try:
+        reps = d.call_many([{"op": "interleave", "qs": g} for g in groups], timeout=300)
+    except (DriverDied, DriverTimeout) as ex:
+        acc.inconc("interleave stage: %r" % (ex,))
+        d.restart()
+        return 0
+    for g, r in zip(groups, reps):
+        acc.evaluations += 1
+        acc.count("interleaved_query_groups")
+        case = {"queries": g, "build": build_kind, "expected": [[list(x) for x in alone[q]] for q in g]}
+        if "results" not in r:
+            acc.violate("%s:interleave:%s" % (pid.lower(), "panic" if "panic" in r else "no-results"), "queries %r stepped in turn: %s" % (g, r), dict(case, observed=r))
+            continue
+        got = [[norm(it) for it in res] for res in r["results"]]
+        want = [alone[q] for q in g]
+        if got != want:
+            j = next(i for i in range(len(g)) if i >= len(got) or got[i] != want[i])
+            acc.violate("%s:interleave:differs" % pid.lower(), "query %r yields %s while %r are being evaluated in turn with it, on its own it yields %s" % (
+                g[j], got[j] if j < len(got) else None, [q for i, q in enumerate(g) if i != j], want[j]), dict(case, observed=[[list(x) for x in res] for res in got]))
+        else:
+            acc.nontriv("|".join(g))
+    return len(groups)
